@@ -1478,6 +1478,19 @@ func (t *Terminal) endStaleOverride() {
 	}
 }
 
+// freezeSearch makes the current query the string that stays searched while
+// search is disabled. The coordinator asks for the query when it gets to a
+// request, which may be after search was disabled: it must still be given the
+// query typed before that.
+func (t *Terminal) freezeSearch() {
+	if t.inputOverride == nil {
+		frozen := copySlice(t.input)
+		t.inputOverride = &frozen
+		// Only until search is enabled again
+		t.overrideEnded = true
+	}
+}
+
 func (t *Terminal) Input() (bool, []rune) {
 	t.mutex.Lock()
 	defer t.mutex.Unlock()
@@ -5800,6 +5813,8 @@ func (t *Terminal) Loop() error {
 				changed = changed || !t.paused
 				if !t.paused {
 					t.endStaleOverride()
+				} else {
+					t.freezeSearch()
 				}
 				req(reqPrompt)
 			case actToggleTrack:
@@ -5894,7 +5909,10 @@ func (t *Terminal) Loop() error {
 				changed = true
 				req(reqPrompt)
 			case actDisableSearch:
-				t.paused = true
+				if !t.paused {
+					t.paused = true
+					t.freezeSearch()
+				}
 				req(reqPrompt)
 			case actSigStop:
 				p, err := os.FindProcess(os.Getpid())
